@@ -458,7 +458,9 @@ def check_one(case):
             v = wfile[sname]
             tables[sname] = [list(r) for r in v["__table__"]] if isinstance(v, dict) else [list(r) for r in render.table(wfile, sname)]
         res = None
-        for fmt in ("xlsx", "md", "csv"):
+        # (md / csv cannot hold a blank row: the readers drop it, so the row-shift model only applies to xlsx)
+        has_blank = any(TRANSFORMS[ti] is t_blank_row for ti, _ in case["t"])
+        for fmt in (("xlsx",) if has_blank else ("xlsx", "md", "csv")):
             if fmt == "xlsx":
                 plain = {k: (v if not isinstance(v, dict) else []) for k, v in wfile.items()}
                 src, kw = render.render(plain, "xlsx", tables)
